@@ -666,7 +666,14 @@ theorem setGeneric_spec {c : Cls} {k : RelKind} {ops : RecOps} (ok : OpsOk c k o
     rw [Nat.add_zero, wr_wr_comm a fo fi off (off + W) (by omega) (by rw [li]; rw [hSz] at hE; split at hE <;> omega)]
     have := wr_wr_adjacent a fo fi off (by rw [lo, li]; rw [hSz] at hE; split at hE <;> omega)
     rw [lo] at this; exact this
+  have hsm : ops.setSmall b.entSize = false := by
+    cases h : ops.setSmall b.entSize with
+    | false => rfl
+    | true => have := (ok.setSmall _).mp h; omega
+  have hnd : ops.setNodata b.getData.data.isNone = false := by rw [ok.setNodata, hd]; rfl
   unfold setGeneric
+  simp only [hsm, hnd, Bool.false_eq_true, if_false]
+  unfold setWrites
   simp only [hoff, hd, ok.offsetOff, ok.offsetW, ok.infoOff, ok.infoW, hW, hfi, hfo, w1, bind, Except.bind, w2, e2]
   cases k with
   | rel =>
@@ -1089,21 +1096,33 @@ example : (0x10203#64).toNat < symLimit .c32 := by decide
 
 /-! ### outside the property's domain: an entry size below `sizeof(T)`
 
-`generic_get_entry_*` refuse such a table, `generic_set_entry_*` (and therefore `swap_symbols`) have no
-such guard: the record written at `index * entry_size` reaches past the section's last entry.  Not a C11
-violation (the writer API sets `sizeof(T)`), recorded here because the model reproduces it exactly; it
-belongs to the memory-safety property of table accesses on loaded files (C18). -/
+`generic_get_entry_*` refuse such a table; `generic_set_entry_*` (and therefore `swap_symbols`) had no
+such guard — the record written at `index * entry_size` reached past the section's last entry (found
+here, reported under the memory-safety property of table accesses on loaded files, C18).  Since
+fixes/21-reloc-set-entry-checks the setters have the getters' guards: the call leaves the table alone. -/
 
+/-- the member writes without the guard: ELF32 REL table with `sh_entsize = 4`, one 8-byte entry —
+    the write for index 1 (8/4 = 2 "entries") goes 4 bytes past the 8-byte buffer -/
 def isOobWrite {α : Type} : M α → Bool
   | .error (.oobWrite _) => true
   | _ => false
 
-/-- ELF32 REL table with `sh_entsize = 4`, one 8-byte entry: `set_entry(1, …)` passes the index guard
-    (8/4 = 2 entries) and writes 4 bytes past the 8-byte buffer -/
 theorem set_entry_small_entsize_witness :
     isOobWrite (do
       let b ← addRel .lsb { SecBuf.fresh .c32 (BitVec.ofNat 32 SHT_REL) with entSize := 4 } 1 2 3
-      setEntry .lsb b 1 { offset := 1, symbol := 2, type := 3, addend := 0 }) = true := by decide
+      setWrites ops32rel .lsb b 1 { offset := 1, symbol := 2, type := 3, addend := 0 }) = true := by decide
+
+/-- … and `set_entry` itself (after the fix): index 1 passes the index guard, the entry-size guard stops
+    the call, the section is untouched -/
+def isOkTrue : M Bool → Bool
+  | .ok true => true
+  | _ => false
+
+theorem set_entry_small_entsize_noop :
+    isOkTrue (do
+      let b ← addRel .lsb { SecBuf.fresh .c32 (BitVec.ofNat 32 SHT_REL) with entSize := 4 } 1 2 3
+      let r ← setEntry .lsb b 1 { offset := 1, symbol := 2, type := 3, addend := 0 }
+      pure (r.1.data == b.data && r.2)) = true := by decide
 
 /-- with `sizeof(T) ≤ entry_size`, `set_entry` is total on every relocation table with the invariant
     (valid index: `set_entry_frame`; invalid index: `set_invalid`) -/
